@@ -153,6 +153,10 @@ def icpt_script(rng, d, nb, big=False, fec=True, level="icpt", nstreams=1, other
         seq = dd["base"]
         for _ in range(nb):
             st["batches"].append({"n": d["n"], "pkts": concrete_batch(rng, dd, lens, seq)})
+            if level == "icpt" and nstreams == 1 and rng.random() < 0.3:
+                # the next writer refuses ONE of the packets it is given during this batch (a media packet - sometimes the one
+                # that completes the batch - or a repair packet): the others must still be sent
+                st["batches"][-1]["failat"] = rng.choice([1, d["k"], d["k"], d["k"] + 1, d["k"] + d["n"]])
             seq = (seq + d["k"]) % 65536
         if d["k"] > 1 and rng.random() < 0.3:
             part = concrete_batch(rng, dd, lens, seq)[:rng.randrange(1, d["k"])]
